@@ -157,6 +157,10 @@ func ParseSig(sig string) (*Prog, error) {
 			p.Snk = &Sinks[i]
 		}
 	}
+	if g := GuardByID(parts[len(parts)-1]); g != nil {
+		p.Guard = g
+		p.Snk = &Sinks[0]
+	}
 	if p.Src == nil || p.Snk == nil {
 		return nil, fmt.Errorf("bad source/sink in %q", sig)
 	}
@@ -179,3 +183,26 @@ func ParseSig(sig string) (*Prog, error) {
 
 // Prefix is the identifier prefix of program i.
 func Prefix(i int) string { return "P" + strconv.Itoa(i) + "_" }
+
+// EnumerateGuards returns the C02 family: every guard shape after every S-to-S chain within the bounds.
+func EnumerateGuards(bounds []Bound) []*Prog {
+	base := Enumerate(bounds, func(s *Step) bool { return !s.Drops })
+	var out []*Prog
+	seen := map[string]bool{}
+	for _, p := range base {
+		if p.Snk != &Sinks[0] || p.Src.Out != "S" && len(p.Items) == 0 {
+			continue
+		}
+		for gi := range Guards {
+			q := *p
+			q.Guard = &Guards[gi]
+			if !q.Valid() || seen[q.Sig()] {
+				continue
+			}
+			seen[q.Sig()] = true
+			cp := q
+			out = append(out, &cp)
+		}
+	}
+	return out
+}
